@@ -35,7 +35,7 @@ Section WireFacts.
     induction fuel as [|fuel IH]; intros d ops; [cbn; auto|].
     destruct ops as [|o rest]; [cbn; auto|].
     destruct (is_tx o) eqn:Et.
-    - destruct o as [| i tag n | | | | | |]; try discriminate. cbn [receive].
+    - destruct o as [| i tag n | | | | | | | | | | |]; try discriminate. cbn [receive].
       destruct ((n <? 1)%Z || (Z.of_nat (length (OTx i tag n :: rest)) <? n)%Z); [auto|].
       destruct (n =? 1)%Z.
       + specialize (IH (remote_op St call J k_remote d (OTx i tag n)) (skipn (Z.to_nat n) (OTx i tag n :: rest))).
